@@ -33,7 +33,7 @@ REGISTRY["C19"] = dict(
 
 REGISTRY["C03"] = dict(level="proof", theorems=T("C03", "C03_push_back", "C03_push_front", "C03_pop_back", "C03_pop_front", "C03_remove", "C03_truncate_back", "C03_truncate_front", "C03_push_many", "C03_drain", "C03_consequences", "C03_final_drop"), cases=P.cases_C03, projection=proj_behaviour,
                        oracles=[P.o_spec, P.o_leak, P.o_no_defect_panic])
-REGISTRY["C04"] = dict(level="proof", theorems=T("C04", "C04_indep", "C04_push_back", "C04_push_front", "C04_pop_back", "C04_pop_front", "C04_remove", "C04_swap_remove_back", "C04_eq"), cases=P.cases_C04, projection=proj_physical,
+REGISTRY["C04"] = dict(level="proof", cross_oracles=[P.x_hash_layout_independent], theorems=T("C04", "C04_indep", "C04_push_back", "C04_push_front", "C04_pop_back", "C04_pop_front", "C04_remove", "C04_swap_remove_back", "C04_eq"), cases=P.cases_C04, projection=proj_physical,
                        oracles=[P.o_spec, P.o_ledger, P.o_views, P.o_no_defect_panic])
 REGISTRY["C05"] = dict(level="proof", theorems=T("C05", "C05_drop_range", "C05_truncate_back", "C05_truncate_front", "C05_clear", "C05_drain_drop"), cases=P.cases_C05, projection=proj_behaviour,
                        oracles=[P.o_ledger, P.o_views, P.o_no_defect_panic])
@@ -51,7 +51,7 @@ REGISTRY["C11"] = dict(level="proof", theorems=T("C11", "C11_swap_ok", "C11_swap
                        oracles=[P.o_spec, P.o_documented_panics, P.o_views])
 REGISTRY["C12"] = dict(level="proof", theorems=T("C12", "C12_new", "C12_from_array", "C12_from_iter", "C12_clone", "C12_clone_from", "C12_clone_values", "C12_clone_ids"), cases=P.cases_C12, projection=proj_behaviour,
                        oracles=[P.o_spec, P.o_leak, P.o_views, P.o_no_defect_panic])
-REGISTRY["C13"] = dict(level="proof", theorems=T("C13", "C13_eq", "C13_eq_slice", "C13_cmp", "C13_lex_eq", "C13_lex_lt", "C13_hash", "C13_debug", "C13_readonly"), cases=P.cases_C13, projection=proj_behaviour,
+REGISTRY["C13"] = dict(level="proof", cross_oracles=[P.x_hash_layout_independent], theorems=T("C13", "C13_eq", "C13_eq_slice", "C13_cmp", "C13_lex_eq", "C13_lex_lt", "C13_hash", "C13_debug", "C13_readonly"), cases=P.cases_C13, projection=proj_behaviour,
                        oracles=[P.o_spec, P.o_views, P.o_no_defect_panic])
 REGISTRY["C14"] = dict(level="proof", theorems=T("C14", "C14_write", "C14_read", "C14_fill_buf", "C14_consume"), cases=P.cases_C14, projection=proj_behaviour,
                        oracles=[P.o_spec, P.o_views, P.o_no_defect_panic])
@@ -69,7 +69,7 @@ REGISTRY["C16"] = dict(level="translation_validation", theorems=IO_THEOREMS, cas
 REGISTRY["C17"] = dict(level="other", theorems=T("C17", "C17_refines_no_event", "C17_drop_events", "C17_clone_log", "C17_boxed"), cases=P.cases_C17, projection=proj_alloc,
                        oracles=[P.o_no_alloc], extra_checks=[P.build_checks_C17],
                        explanation="runtime half: counting global allocator in the harness, allocation column compared with the model (which emits alloc only in boxed/to_vec) for every non-panicking call of the C01/C07/C08/C12/C14 case sets; build half: cargo build --no-default-features / --features alloc / default on the current tree plus a source scan that only boxed()/to_vec() name heap types (a build fact, outside any model)")
-REGISTRY["C18"] = dict(level="translation_validation", theorems=[], cases=P.cases_C18, projection=proj_ordered,
+REGISTRY["C18"] = dict(level="translation_validation", theorems=[], cases=P.cases_C18, projection=proj_behaviour,
                        oracles=[P.o_views, P.o_ledger, P.o_no_defect_panic],
                        reference_default_build=True,
                        variants=[dict(features=("unstable",), nightly=True, label="nightly+unstable")])
